@@ -5,6 +5,7 @@
 #define BOOST_GIL_IO_ENABLE_GRAY_ALPHA
 #include "common/rcx.hpp"
 #include "common/viewlab.hpp"
+#include "common/iofiles.hpp"
 
 #include <boost/gil/extension/dynamic_image/any_image.hpp>
 #include <boost/gil/extension/io/bmp.hpp>
@@ -60,140 +61,7 @@ using Natives = mp::mp_list<gil::rgb8_image_t, gil::rgba8_image_t, gil::rgb16_im
 static const char* native_name[] = {"rgb8", "rgba8", "rgb16", "rgba16", "cmyk8", "gray_alpha8", "gray8", "gray16", "gray1", "gray2", "gray4", "gray32f", "rgb32f", "gray_alpha16"};
 using AnyImg = gil::any_image<gil::gray8_image_t, gil::gray16_image_t, gil::rgb8_image_t, gil::rgba8_image_t, gil::rgb16_image_t, gil::rgba16_image_t, gil::cmyk8_image_t>;
 
-// ------------------------------------------------------------------------------------------------ byte helpers and hand serialisers
-static void put16(std::string& s, unsigned v) { s += char(v & 255); s += char((v >> 8) & 255); }
-static void put32(std::string& s, unsigned long v) { put16(s, v & 0xffff); put16(s, (v >> 16) & 0xffff); }
-struct Rnd { verif::SplitMix r; explicit Rnd(std::uint64_t s) : r(s) {} unsigned byte() { return unsigned(r.next() & 255); } unsigned below(unsigned n) { return unsigned(r.below(n)); } };
-
-// BMP: bpp in {1,4,8,24,32}, top_down flag, rle (bpp 4/8 only)
-static std::string make_bmp(int w, int h, int bpp, bool top_down, bool rle, std::uint64_t seed)
-{
-    Rnd r(seed);
-    int ncol = bpp <= 8 ? (1 << bpp) : 0;
-    std::string pal;
-    for (int i = 0; i < ncol; ++i) { pal += char(r.byte()); pal += char(r.byte()); pal += char(r.byte()); pal += char(0); }
-    // pixel indices / colours, in top-down image order
-    std::vector<std::vector<unsigned>> px(static_cast<std::size_t>(h), std::vector<unsigned>(static_cast<std::size_t>(w)));
-    for (auto& row : px) for (auto& v : row) v = bpp <= 8 ? r.below(static_cast<unsigned>(ncol)) : unsigned(r.r.next() & 0xffffffffu);
-    std::string data;
-    auto file_rows = [&](int k) { return top_down ? k : h - 1 - k; }; // k-th stored row = image row
-    if (!rle)
-    {
-        int row_bytes = ((w * bpp + 31) / 32) * 4;
-        for (int k = 0; k < h; ++k)
-        {
-            auto const& row = px[static_cast<std::size_t>(file_rows(k))];
-            std::string line(static_cast<std::size_t>(row_bytes), char(0));
-            for (int x = 0; x < w; ++x)
-            {
-                unsigned v = row[static_cast<std::size_t>(x)];
-                if (bpp == 1) { if (v) line[static_cast<std::size_t>(x / 8)] = char(line[static_cast<std::size_t>(x / 8)] | (0x80 >> (x % 8))); }
-                else if (bpp == 4) { line[static_cast<std::size_t>(x / 2)] = char(line[static_cast<std::size_t>(x / 2)] | ((x & 1) ? (v & 15) : ((v & 15) << 4))); }
-                else if (bpp == 8) line[static_cast<std::size_t>(x)] = char(v);
-                else if (bpp == 24) { line[static_cast<std::size_t>(3 * x)] = char(v); line[static_cast<std::size_t>(3 * x + 1)] = char(v >> 8); line[static_cast<std::size_t>(3 * x + 2)] = char(v >> 16); }
-                else { line[static_cast<std::size_t>(4 * x)] = char(v); line[static_cast<std::size_t>(4 * x + 1)] = char(v >> 8); line[static_cast<std::size_t>(4 * x + 2)] = char(v >> 16); line[static_cast<std::size_t>(4 * x + 3)] = char(v >> 24); }
-            }
-            data += line;
-        }
-    }
-    else
-    {
-        // RLE8 / RLE4: mix of encoded runs and absolute runs, end-of-line after each row, end-of-bitmap at the end (always bottom-up)
-        for (int k = 0; k < h; ++k)
-        {
-            auto const& row = px[static_cast<std::size_t>(h - 1 - k)];
-            int x = 0;
-            while (x < w)
-            {
-                int left = w - x;
-                bool absolute = left >= 3 && r.below(3) == 0;
-                if (absolute)
-                {
-                    int n = 3 + static_cast<int>(r.below(static_cast<unsigned>(std::min(left - 2, 6))));
-                    data += char(0); data += char(n);
-                    if (bpp == 8) { for (int i = 0; i < n; ++i) data += char(row[static_cast<std::size_t>(x + i)]); if (n & 1) data += char(0); }
-                    else
-                    {
-                        int bytes = (n + 1) / 2;
-                        for (int i = 0; i < bytes; ++i) { unsigned a = row[static_cast<std::size_t>(x + 2 * i)], b = (2 * i + 1 < n) ? row[static_cast<std::size_t>(x + 2 * i + 1)] : 0; data += char((a << 4) | b); }
-                        if (bytes & 1) data += char(0);
-                    }
-                    x += n;
-                }
-                else
-                {
-                    int n = 1 + static_cast<int>(r.below(static_cast<unsigned>(std::min(left, 5))));
-                    if (bpp == 8)
-                    {
-                        unsigned v = row[static_cast<std::size_t>(x)];
-                        int run = 1;
-                        while (run < n && row[static_cast<std::size_t>(x + run)] == v) ++run;
-                        data += char(run); data += char(v);
-                        x += run;
-                    }
-                    else
-                    {
-                        // RLE4 run alternates two colours
-                        unsigned a = row[static_cast<std::size_t>(x)], b = (x + 1 < w) ? row[static_cast<std::size_t>(x + 1)] : 0;
-                        int run = 1;
-                        while (run < n && row[static_cast<std::size_t>(x + run)] == ((run & 1) ? b : a)) ++run;
-                        data += char(run); data += char((a << 4) | b);
-                        x += run;
-                    }
-                }
-            }
-            data += char(0); data += char(k + 1 == h ? 1 : 0);
-        }
-    }
-    std::string f = "BM";
-    unsigned long offset = 14 + 40 + pal.size();
-    put32(f, offset + data.size()); put32(f, 0); put32(f, offset);
-    put32(f, 40); put32(f, static_cast<unsigned long>(w)); put32(f, static_cast<unsigned long>(top_down ? static_cast<unsigned long>(-static_cast<long>(h)) & 0xffffffffUL : static_cast<unsigned long>(h)));
-    put16(f, 1); put16(f, static_cast<unsigned>(bpp)); put32(f, rle ? (bpp == 8 ? 1 : 2) : 0); put32(f, data.size()); put32(f, 2835); put32(f, 2835);
-    put32(f, static_cast<unsigned long>(ncol)); put32(f, 0);
-    return f + pal + data;
-}
-// TARGA: bpp 24/32, rle, top origin
-static std::string make_tga(int w, int h, int bpp, bool rle, bool top_origin, std::uint64_t seed)
-{
-    Rnd r(seed);
-    int bytes = bpp / 8;
-    std::vector<std::string> px;
-    for (int i = 0; i < w * h; ++i) { std::string p; for (int b = 0; b < bytes; ++b) p += char((r.below(4) == 0 && i > 0) ? px.back()[static_cast<std::size_t>(b)] : char(r.byte())); px.push_back(p); }
-    std::string f;
-    f += char(0); f += char(0); f += char(rle ? 10 : 2);
-    put16(f, 0); put16(f, 0); f += char(0); put16(f, 0); put16(f, 0); put16(f, static_cast<unsigned>(w)); put16(f, static_cast<unsigned>(h));
-    f += char(bpp); f += char((bpp == 32 ? 8 : 0) | (top_origin ? 32 : 0));
-    if (!rle) { for (auto& p : px) f += p; return f; }
-    std::size_t i = 0, n = px.size();
-    while (i < n)
-    {
-        std::size_t run = 1;
-        while (i + run < n && run < 128 && px[i + run] == px[i]) ++run;
-        if (run >= 2 || r.below(4) == 0) { f += char(0x80 | (run - 1)); f += px[i]; i += run; }
-        else
-        {
-            std::size_t raw = 1;
-            while (i + raw < n && raw < 128 && raw < 1 + r.below(6) && px[i + raw] != px[i + raw - 1]) ++raw;
-            f += char(raw - 1);
-            for (std::size_t k = 0; k < raw; ++k) f += px[i + k];
-            i += raw;
-        }
-    }
-    return f;
-}
-// PNM ASCII: type 1 (bitmap), 2 (gray), 3 (rgb)
-static std::string make_pnm_ascii(int w, int h, int type, std::uint64_t seed)
-{
-    Rnd r(seed);
-    std::ostringstream os;
-    os << "P" << type << "\n# generated\n" << w << " " << h << "\n";
-    if (type != 1) os << "255\n";
-    int n = w * h * (type == 3 ? 3 : 1);
-    for (int i = 0; i < n; ++i) { os << (type == 1 ? r.below(2) : r.byte()); os << ((i % 7 == 6) ? "\n" : (r.below(5) == 0 ? "  " : " ")); }
-    os << "\n";
-    return os.str();
-}
+using namespace iofiles;
 
 static std::string slurp(std::string const& path)
 {
